@@ -12,9 +12,30 @@ import (
 type rng struct{ lo, hi uint64 }
 
 type facts struct {
-	r    map[int]rng // unsigned bounds by term id
-	memo map[int]rng
-	bm   map[int]int8
+	r     map[int]rng // unsigned bounds by term id
+	terms map[int]*term.Term
+	memo  map[int]rng
+	bm    map[int]int8
+	empty bool // some term's range became empty: the guard is unsatisfiable
+	check int8 // 0 = not yet checked, 1 = consistent, 2 = inconsistent
+}
+
+// consistent reports false when the facts contradict the structure of the terms they constrain.
+func (f *facts) consistent() bool {
+	if f.check == 0 {
+		f.check = 1
+		for id, t := range f.terms {
+			_ = id
+			r := f.rangeOf(t)
+			if r.lo > r.hi {
+				f.empty = true
+			}
+		}
+		if f.empty {
+			f.check = 2
+		}
+	}
+	return f.check == 1
 }
 
 func wmask(w int) uint64 {
@@ -30,7 +51,7 @@ func factsOf(g *term.Term) *facts {
 	if f, ok := factsCache[g.ID]; ok {
 		return f
 	}
-	f := &facts{r: map[int]rng{}, memo: map[int]rng{}, bm: map[int]int8{}}
+	f := &facts{r: map[int]rng{}, terms: map[int]*term.Term{}, memo: map[int]rng{}, bm: map[int]int8{}}
 	type sb struct {
 		lo, hi int64
 		has    bool
@@ -52,6 +73,10 @@ func factsOf(g *term.Term) *facts {
 			cur.hi = hi
 		}
 		f.r[t.ID] = cur
+		f.terms[t.ID] = t
+		if cur.lo > cur.hi {
+			f.empty = true
+		}
 	}
 	stight := func(t *term.Term, lo, hi int64) {
 		if t.W() > 64 {
@@ -61,6 +86,7 @@ func factsOf(g *term.Term) *facts {
 		if s == nil {
 			s = &sb{lo: -1 << 63, hi: 1<<63 - 1, w: t.W()}
 			sf[t.ID] = s
+			f.terms[t.ID] = t
 		}
 		if lo > s.lo {
 			s.lo = lo
@@ -185,6 +211,11 @@ func factsOf(g *term.Term) *facts {
 				cur.hi = uint64(s.hi)
 			}
 			f.r[id] = cur
+			if cur.lo > cur.hi {
+				f.empty = true
+			}
+		} else if s.hi < s.lo {
+			f.empty = true
 		}
 	}
 	factsCache[g.ID] = f
@@ -312,6 +343,9 @@ func (f *facts) rangeOf(t *term.Term) rng {
 		}
 		if fr.hi < r.hi {
 			r.hi = fr.hi
+		}
+		if r.lo > r.hi {
+			f.empty = true
 		}
 	}
 	f.memo[t.ID] = r
